@@ -414,7 +414,7 @@ impl DoviPolynomialCurve {
 
         if poly_order_minus1 == 0 && linear_interp_flag {
             // Linear interpolation
-            unimplemented!("parse: Polynomial interpolation: please open an issue");
+            bail!("parse: Polynomial interpolation is not supported, please open an issue");
 
             /*if header.coefficient_data_type == 0 {
                 self.pred_linear_interp_value_int[i] = reader.get_ue()?;
